@@ -560,7 +560,9 @@ pub fn strftime(ts: time::OffsetDateTime, fmt: &str) -> Result<String, DateForma
                 output.push(lit);
             }
             Formats::Unknown => {
-                output.push_str(&fmt[fmt_pos..=cursor]);
+                // `cursor` is the byte index where the last consumed character starts
+                let end = cursor + fmt[cursor..].chars().next().map_or(0, char::len_utf8);
+                output.push_str(&fmt[fmt_pos..end]);
                 continue;
             }
         };
